@@ -88,6 +88,10 @@ func isUsed(field string, node Node) bool {
 						used = true
 					}
 				}
+			case NodeTypeUnnest:
+				if node.Unnest.Field == field {
+					used = true
+				}
 			default:
 			}
 
